@@ -229,6 +229,9 @@ partial def norm (t : T) : T :=
     | "deref", [.list [.atom "setderef", _, x]] => x
     -- implicit dereference: x.F through a pointer reads the same field
     | "sel", [.list [.atom "deref", x], f] => norm (mk "sel" [x, f])
+    -- … and a method of the struct called through a pointer has the same receiver
+    | "call", (.list [.atom "sm", nm]) :: (.list [.atom "deref", x]) :: rest => mk "call" (mk "sm" [nm] :: x :: rest)
+    | "try", (.list [.atom "sm", nm]) :: w :: (.list [.atom "deref", x]) :: rest => mk "try" (mk "sm" [nm] :: w :: x :: rest)
     -- read after write
     | "sel", [.list [.atom "setf", b, g, x], f] => if strOf g == strOf f then x else norm (mk "sel" [b, f])
     | "at", [.list [.atom "setat", b, j, x], i] => if j == i then x else mk "at" [mk "setat" [b, j, x], i]
@@ -276,7 +279,9 @@ def methodTerm (env : TEnv) (customs : List FnDef) (methods : List GenMethod) (m
   | some (.delegate i args retErr) => callT cx (.custom i) args retErr { mode := .none, path := [] } src
   | some (.update srcIsPtr c) =>
     let tgt := mk "p" [a "target"]
-    let r := (denote { cx with parent := if srcIsPtr then some src else none } c src .localVar tgt).1
+    -- a pointer source: fields are selected through it (`norm` reads `(sel (deref x) f)` as `(sel x f)`), the whole source is `*source`
+    let r := if srcIsPtr then (denote { cx with parent := some src } c (mk "deref" [src]) .other tgt).1
+             else (denote cx c src .localVar tgt).1
     if srcIsPtr then ifT (nzT src) r tgt else r
 
 end Gv.Sym
